@@ -1,4 +1,5 @@
-import AlphaG.Lemmas.EventTs
+import AlphaG.Lemmas.EventIff
+import AlphaG.Props.C09
 /-
 C10 — event assembly puts each waveform on its detector element, calibrated, or fails.
 
@@ -73,5 +74,270 @@ theorem assembly_spec (order : GroupOrder) (run : Nat) (banks : List Bank) (ev :
     rcases this with ⟨_, h5⟩ | ⟨t, h4, h5⟩
     · rw [h3] at h5; cases h5
     · rw [h4]; rw [h3] at h5; cases h5; rfl
+
+/-! ### Acceptance is characterised; every listed cause is rejected -/
+
+/-- **C10 assembly_accepts_iff.** The build succeeds *exactly* when every bank is fine on its own
+(known name; well-formed payload; anode-wire packet of an anode-wire channel that agrees with its
+bank name; chunk whose board agrees with its bank name; a wire and a calibration for every packet
+with samples), no anode-wire bank name occurs twice, there is exactly one TRG bank, and every
+(board, chip) group of chunks reassembles into a packet that names that board and chip and whose
+sent pad channels all have a pad and a calibration. The `assembly_rejects_*` theorems below are
+the individual consequences. -/
+theorem assembly_accepts_iff (order : GroupOrder) (run : Nat) (banks : List Bank) :
+    (∃ ev : Event α, buildEventWith ops order run banks = .ok ev) ↔ Accepts run banks :=
+  ok_iff_accepts ops order run banks
+
+/-- The build ends in an error (not in an event, and — C09 — not in a panic). -/
+def Rejected (x : Outcome Err (Event α)) : Prop := ∃ e, x = .err e
+
+theorem rejected_of_not_accepts {order : GroupOrder} {run : Nat} {banks : List Bank}
+    (h : ¬ Accepts run banks) : Rejected (buildEventWith ops order run banks) := by
+  cases hx : buildEventWith ops order run banks with
+  | ok ev => exact absurd (accepts_of_ok ops hx) h
+  | err e => exact ⟨e, rfl⟩
+  | panic s => exact absurd hx (C09.buildEvent_total ops order run banks s)
+
+variable (order : GroupOrder) (run : Nat) (banks : List Bank)
+
+/-- Cause: a bank name is unknown. -/
+theorem assembly_rejects_unknown_name (b : Bank) (hb : b ∈ banks) (e : BankName.MainErr)
+    (h : BankName.parseBankName b.1 = .err e) : Rejected (buildEventWith ops order run banks) := by
+  refine rejected_of_not_accepts ops (fun ha => ?_)
+  obtain ⟨nm, hnm, _⟩ := ha.fine b hb
+  rw [h] at hnm; cases hnm
+
+/-- Cause: a wire, pad or TRG payload is malformed (its decoder returns an error). -/
+theorem assembly_rejects_malformed_payload (b : Bank) (hb : b ∈ banks) (nm : BankName.Name)
+    (hnm : BankName.parseBankName b.1 = .ok nm)
+    (h : (nm.kind = .adc32 ∧ ∃ e, Adc.decodeAdcPacket b.2 = .err e)
+       ∨ (nm.kind = .padwing ∧ ∃ e, Chunk.decodeChunk b.2 = .err e)
+       ∨ (nm.kind = .trg ∧ ∃ e, Trg.decode b.2 = .err e)) :
+    Rejected (buildEventWith ops order run banks) := by
+  refine rejected_of_not_accepts ops (fun ha => ?_)
+  obtain ⟨nm', hnm', hw, hp, ht⟩ := ha.fine b hb
+  rw [hnm] at hnm'; cases hnm'
+  rcases h with ⟨hk, e, he⟩ | ⟨hk, e, he⟩ | ⟨hk, e, he⟩
+  · obtain ⟨p, _, hd, _⟩ := hw hk; rw [he] at hd; cases hd
+  · obtain ⟨c, hd, _⟩ := hp hk; rw [he] at hd; cases hd
+  · obtain ⟨p, hd⟩ := ht hk; rw [he] at hd; cases hd
+
+/-- Cause: the chunks of one (board, chip) do not reassemble into a well-formed PWB packet
+(missing / duplicated chunk, misplaced end-of-message flag, malformed packet, …). -/
+theorem assembly_rejects_malformed_pwb_packet (g : Group) (hg : g ∈ groupsOf banks) (e : Pwb.CErr)
+    (h : Pwb.reassemble g.2 = .err e) : Rejected (buildEventWith ops order run banks) := by
+  refine rejected_of_not_accepts ops (fun ha => ?_)
+  obtain ⟨p, hp, _⟩ := ha.groups g hg
+  rw [h] at hp; cases hp
+
+/-- Cause: a wire bank holds a barrel-veto channel — also when the packet is suppressed (full
+strength since the repair of finding F6). -/
+theorem assembly_rejects_bv_channel (b : Bank) (hb : b ∈ banks) (nm : BankName.Name)
+    (hnm : BankName.parseBankName b.1 = .ok nm) (hk : nm.kind = .adc32) (p : Adc.Packet)
+    (hp : Adc.decodeAdcPacket b.2 = .ok p) (n : Nat) (hch : p.channelId = .a16 n) :
+    Rejected (buildEventWith ops order run banks) := by
+  refine rejected_of_not_accepts ops (fun ha => ?_)
+  obtain ⟨nm', hnm', hw, _, _⟩ := ha.fine b hb
+  rw [hnm] at hnm'; cases hnm'
+  obtain ⟨p', ch, hd, hc, _⟩ := hw hk
+  rw [hp] at hd; cases hd
+  rw [hch] at hc; cases hc
+
+/-- Cause: a wire bank name and its payload disagree on the channel — also when the packet is
+suppressed (full strength since the repair of finding F6). -/
+theorem assembly_rejects_wire_channel_mismatch (b : Bank) (hb : b ∈ banks) (nm : BankName.Name)
+    (hnm : BankName.parseBankName b.1 = .ok nm) (hk : nm.kind = .adc32) (p : Adc.Packet)
+    (hp : Adc.decodeAdcPacket b.2 = .ok p) (ch : Nat) (hch : p.channelId = .a32 ch)
+    (hne : ch ≠ nm.channel) : Rejected (buildEventWith ops order run banks) := by
+  refine rejected_of_not_accepts ops (fun ha => ?_)
+  obtain ⟨nm', hnm', hw, _, _⟩ := ha.fine b hb
+  rw [hnm] at hnm'; cases hnm'
+  obtain ⟨p', ch', hd, hc, hid, _⟩ := hw hk
+  rw [hp] at hd; cases hd
+  rw [hch] at hc
+  have : ch = ch' := Adc.ChannelId.a32.inj hc
+  exact hne (this.trans (Prod.mk.inj hid).2.symm)
+
+/-- Cause: a wire bank name and its payload disagree on the board. A suppressed (16-byte) packet
+carries no board id, so the disagreement exists only for packets with a board id. -/
+theorem assembly_rejects_wire_board_mismatch (b : Bank) (hb : b ∈ banks) (nm : BankName.Name)
+    (hnm : BankName.parseBankName b.1 = .ok nm) (hk : nm.kind = .adc32) (p : Adc.Packet)
+    (hp : Adc.decodeAdcPacket b.2 = .ok p) (x : String × List Nat) (hx : p.boardId = some x)
+    (hne : alpha16Boards[nm.board]? ≠ some x) : Rejected (buildEventWith ops order run banks) := by
+  refine rejected_of_not_accepts ops (fun ha => ?_)
+  obtain ⟨nm', hnm', hw, _, _⟩ := ha.fine b hb
+  rw [hnm] at hnm'; cases hnm'
+  obtain ⟨p', ch', hd, _, hid, _⟩ := hw hk
+  rw [hp] at hd; cases hd
+  have := (Prod.mk.inj hid).1
+  unfold boardOf at this
+  rw [hx] at this
+  exact hne this
+
+/-- Cause: a pad bank name and its payload (the chunk header) disagree on the board. -/
+theorem assembly_rejects_pad_board_mismatch (b : Bank) (hb : b ∈ banks) (nm : BankName.Name)
+    (hnm : BankName.parseBankName b.1 = .ok nm) (hk : nm.kind = .padwing) (c : Chunk.Chunk)
+    (hc : Chunk.decodeChunk b.2 = .ok c)
+    (hne : Chunk.boardOfDeviceId c.deviceId ≠ padwingBoards[nm.board]?) :
+    Rejected (buildEventWith ops order run banks) := by
+  refine rejected_of_not_accepts ops (fun ha => ?_)
+  obtain ⟨nm', hnm', _, hpw, _⟩ := ha.fine b hb
+  rw [hnm] at hnm'; cases hnm'
+  obtain ⟨c', hd, hbd⟩ := hpw hk
+  rw [hc] at hd; cases hd
+  exact hne hbd
+
+/-- Cause (finding F10, repaired): the reassembled PWB packet names another board (its MAC) or
+another chip (its AFTER letter) than the chunks — hence the bank names — it came in. -/
+theorem assembly_rejects_packet_identity_mismatch (g : Group) (hg : g ∈ groupsOf banks)
+    (p : Pwb.PwbPacket) (hp : Pwb.reassemble g.2 = .ok p)
+    (hne : some (packetBoard p) ≠ g.1.1 ∨ Chunk.afterOfNat p.afterId ≠ g.1.2) :
+    Rejected (buildEventWith ops order run banks) := by
+  refine rejected_of_not_accepts ops (fun ha => ?_)
+  obtain ⟨p', hp', h1, h2, _⟩ := ha.groups g hg
+  rw [hp] at hp'; cases hp'
+  rcases hne with h | h
+  · exact h h1
+  · exact h h2
+
+/-- Cause: a wire bank is duplicated (the same bank name twice) — whatever the two packets hold
+(full strength since the repair of finding F6). -/
+theorem assembly_rejects_duplicate_wire_bank (pre mid post : List Bank) (b₁ b₂ : Bank)
+    (hbanks : banks = pre ++ b₁ :: (mid ++ b₂ :: post)) (x : Nat × Nat)
+    (h₁ : wireName b₁ = some x) (h₂ : wireName b₂ = some x) :
+    Rejected (buildEventWith ops order run banks) := by
+  refine rejected_of_not_accepts ops (fun ha => ?_)
+  have hn := ha.names
+  rw [hbanks] at hn
+  simp only [List.filterMap_append, List.filterMap_cons, h₁, h₂] at hn
+  have := (List.nodup_append.1 hn).2.1
+  simp only [List.nodup_cons, List.mem_append, List.mem_cons, true_or, or_true, not_true_eq_false,
+    false_and] at this
+
+/-- Cause: the TRG bank is missing. -/
+theorem assembly_rejects_missing_trg (h : ∀ b ∈ banks, trgOf b = none) :
+    Rejected (buildEventWith ops order run banks) := by
+  refine rejected_of_not_accepts ops (fun ha => ?_)
+  have ht := ha.trg
+  have : banks.filterMap trgOf = [] := by
+    rw [List.filterMap_eq_nil_iff]; exact h
+  rw [this] at ht; cases ht
+
+/-- Cause: the TRG bank is duplicated. -/
+theorem assembly_rejects_duplicate_trg (pre mid post : List Bank) (b₁ b₂ : Bank)
+    (hbanks : banks = pre ++ b₁ :: (mid ++ b₂ :: post)) (t₁ t₂ : Nat)
+    (h₁ : trgOf b₁ = some t₁) (h₂ : trgOf b₂ = some t₂) :
+    Rejected (buildEventWith ops order run banks) := by
+  refine rejected_of_not_accepts ops (fun ha => ?_)
+  have ht := ha.trg
+  rw [hbanks] at ht
+  simp only [List.filterMap_append, List.filterMap_cons, h₁, h₂, List.length_append,
+    List.length_cons] at ht
+  omega
+
+/-- Cause: two chunks of one (board, chip) carry the same chunk id (a pad bank duplicated, or two
+packets of one chip). -/
+theorem assembly_rejects_duplicate_chunk_id (pre mid post : List Bank) (b₁ b₂ : Bank)
+    (hbanks : banks = pre ++ b₁ :: (mid ++ b₂ :: post)) (k : Key) (c₁ c₂ : Pwb.ChunkV)
+    (h₁ : chunkOf b₁ = some (k, c₁)) (h₂ : chunkOf b₂ = some (k, c₂))
+    (hid : c₁.chunkId = c₂.chunkId) : Rejected (buildEventWith ops order run banks) := by
+  refine rejected_of_not_accepts ops (fun ha => ?_)
+  have ok := groupsOf_ok banks
+  have hk : k ∈ (banks.filterMap chunkOf).map (·.1) := by
+    rw [hbanks]
+    simp only [List.filterMap_append, List.filterMap_cons, h₁, List.map_append, List.map_cons,
+      List.mem_append, List.mem_cons, true_or, or_true]
+  obtain ⟨p, hp, _⟩ := ha.groups _ (ok.mem_of_key hk)
+  refine Pwb.reassemble_fails_if_duplicated_id _ ?_ p hp
+  simp only
+  rw [hbanks]
+  simp only [chunksFor, List.filterMap_append, List.filterMap_cons, h₁, h₂, List.filter_append,
+    List.filter_cons, decide_true, if_true, List.map_append, List.map_cons]
+  intro hn
+  have := (List.nodup_append.1 hn).2.1
+  simp only [List.nodup_cons, List.mem_append, List.mem_cons, hid, true_or, or_true,
+    not_true_eq_false, false_and] at this
+
+/-- Cause: a needed wire map or wire calibration is unavailable for a packet with samples. -/
+theorem assembly_rejects_missing_wire_map_or_calibration (b : Bank) (hb : b ∈ banks)
+    (nm : BankName.Name) (hnm : BankName.parseBankName b.1 = .ok nm) (hk : nm.kind = .adc32)
+    (p : Adc.Packet) (hp : Adc.decodeAdcPacket b.2 = .ok p) (ch : Nat)
+    (hch : p.channelId = .a32 ch) (hne : p.waveform ≠ [])
+    (hmiss : ¬ ∃ w bl g d, wirePosition run (a16Row (boardOf nm p)) ch = .ok w
+        ∧ wireBaseline run w = .ok bl ∧ wireGainBits run w = .ok g ∧ wireDelay run = .ok d) :
+    Rejected (buildEventWith ops order run banks) := by
+  refine rejected_of_not_accepts ops (fun ha => ?_)
+  obtain ⟨nm', hnm', hw, _, _⟩ := ha.fine b hb
+  rw [hnm] at hnm'; cases hnm'
+  obtain ⟨p', ch', hd, hc, _, hcal⟩ := hw hk
+  rw [hp] at hd; cases hd
+  rw [hch] at hc
+  have : ch = ch' := Adc.ChannelId.a32.inj hc
+  subst this
+  exact hmiss (hcal hne)
+
+/-- Cause: a needed pad map (board not installed for the run) or pad calibration is unavailable
+for a sent pad channel. -/
+theorem assembly_rejects_missing_pad_map_or_calibration (g : Group) (hg : g ∈ groupsOf banks)
+    (p : Pwb.PwbPacket) (hp : Pwb.reassemble g.2 = .ok p) (n : Nat)
+    (hn : Pwb.ChannelId.pad n ∈ p.channelsSent)
+    (hmiss : ¬ ∃ pos bl gn d, padPosition run (keyRow g.1) (keyChip g.1) n = .ok pos
+        ∧ padBaseline run pos.1 pos.2 = .ok bl ∧ padGainBits run pos.1 pos.2 = .ok gn
+        ∧ padDelay run = .ok d) : Rejected (buildEventWith ops order run banks) := by
+  refine rejected_of_not_accepts ops (fun ha => ?_)
+  obtain ⟨p', hp', _, _, hch⟩ := ha.groups g hg
+  rw [hp] at hp'; cases hp'
+  obtain ⟨wf, pos, bl, gn, d, _, h1, h2, h3, h4⟩ := hch n hn
+  exact hmiss ⟨pos, bl, gn, d, h1, h2, h3, h4⟩
+
+/-! ### Ignored banks -/
+
+/-- **C10 assembly_ignores.** Barrel-veto (`B…`), TRB3 (`TRBA`) and MC-vertex (`MCVX`) banks are
+recognised by name and otherwise ignored: inserting or removing one anywhere does not change the
+result (whatever it holds). -/
+theorem assembly_ignores (pre post : List Bank) (b : Bank) (nm : BankName.Name)
+    (hnm : BankName.parseBankName b.1 = .ok nm)
+    (hk : nm.kind = .adc16 ∨ nm.kind = .trb3 ∨ nm.kind = .mcvx) :
+    buildEventWith ops order run (pre ++ b :: post) = buildEventWith ops order run (pre ++ post) := by
+  have hstep : ∀ st : St α, bankStep ops run b st = .ok st := by
+    intro st
+    unfold bankStep
+    rw [hnm]
+    rcases hk with h | h | h <;> simp only [h]
+  have hloop : ∀ st : St α, bankLoop ops run (b :: post) st = bankLoop ops run post st := by
+    intro st
+    conv => lhs; unfold bankLoop
+    rw [hstep st]
+  unfold buildEventWith
+  rw [bankLoop_append, bankLoop_append]
+  cases bankLoop ops run pre St.init with
+  | ok s => simp only [hloop s]
+  | err e => rfl
+  | panic s => rfl
+
+/-! ### Non-vacuity -/
+
+/-- A concrete accepted event: the TRG example packet of the documentation and an anode-wire bank
+`C095` holding the 66-sample example packet of board 09, channel 5 (simulation run). -/
+example : Accepts 4294967295 [("C095", Adc.exampleLongSupp), ("ATAT", Trg.examplePacket)] := by
+  refine ⟨?_, by decide, by decide +kernel, ?_⟩
+  · intro b hb
+    simp only [List.mem_cons, List.not_mem_nil, or_false] at hb
+    rcases hb with rfl | rfl
+    · refine ⟨⟨.adc32, 0, 5⟩, by decide, fun _ => ?_, fun h => by cases h, fun h => by cases h⟩
+      refine ⟨Adc.fields Adc.exampleLongSupp, 5, by decide +kernel, by decide +kernel,
+        by decide +kernel, fun _ => ?_⟩
+      exact ⟨20, 3000, 0x3ff0000000000000, 100, by decide +kernel, by decide +kernel,
+        by decide +kernel, by decide +kernel⟩
+    · exact ⟨⟨.trg, 0, 0⟩, by decide, fun h => by cases h, fun h => by cases h,
+        fun _ => ⟨Trg.fields Trg.examplePacket, by decide +kernel⟩⟩
+  · intro g hg
+    have : groupsOf [("C095", Adc.exampleLongSupp), ("ATAT", Trg.examplePacket)] = [] := by
+      decide +kernel
+    rw [this] at hg; cases hg
+
+/-- The same two banks with the wire bank twice: the hypotheses of
+`assembly_rejects_duplicate_wire_bank` are satisfiable. -/
+example : wireName ("C095", Adc.exampleLongSupp) = some (0, 5) := by decide
 
 end AlphaG.C10
